@@ -20,7 +20,11 @@
 //!    filled: compact, pretty, writer forms parsed back; `iter_payload`;
 //!  * the writer as a dimension: `to_writer` / `to_writer_pretty` into sinks that
 //!    take only part of a buffer per call, fixed slices, interrupted, buffered and
-//!    failing sinks, read back through slow readers.
+//!    failing sinks, read back through slow readers;
+//!  * object-level history: all short operation sequences (queries, edits of
+//!    every public field, clones, JSON round trips, parts swapped between two
+//!    files, version changes) on one file, every observer afterwards compared
+//!    with the model and with a freshly built twin in the final state.
 //!
 //! Reference model: plain tuples; the drop predicate is written from RFC 8416
 //! section 3.3 / the property text; prefix covering is decided on integers.
@@ -43,7 +47,7 @@ use rpki_verif::{guard, hex, Ctx};
 
 //------------ model ---------------------------------------------------------
 
-#[derive(Clone, Copy, Debug, PartialEq, Eq, PartialOrd, Ord)]
+#[derive(Clone, Copy, Debug, PartialEq, Eq, PartialOrd, Ord, Hash)]
 struct MPfx { v4: bool, bits: u128, len: u8 } // bits: the address as an integer (IPv4 in the low 32 bits)
 
 impl MPfx {
@@ -70,11 +74,11 @@ impl MPfx {
 
 type Cm = Option<&'static str>;
 
-#[derive(Clone, Debug, PartialEq, Eq)]
+#[derive(Clone, Debug, PartialEq, Eq, Hash)]
 struct MPF { prefix: Option<MPfx>, asn: Option<u32>, comment: Cm }
-#[derive(Clone, Debug, PartialEq, Eq)]
+#[derive(Clone, Debug, PartialEq, Eq, Hash)]
 struct MBF { ski: Option<[u8; 20]>, asn: Option<u32>, comment: Cm }
-#[derive(Clone, Debug, PartialEq, Eq)]
+#[derive(Clone, Debug, PartialEq, Eq, Hash)]
 struct MAF { customer: Option<u32>, comment: Cm }
 
 #[derive(Clone, Debug, PartialEq, Eq)]
@@ -174,11 +178,11 @@ fn model_drop(pf: &[MPF], bf: &[MBF], af: Option<&[MAF]>, pay: &MPay) -> bool {
 }
 
 // assertions
-#[derive(Clone, Debug, PartialEq, Eq)]
+#[derive(Clone, Debug, PartialEq, Eq, Hash)]
 struct MPA { p: MPfx, maxlen: Option<u8>, asn: u32, comment: Cm }
-#[derive(Clone, Debug, PartialEq, Eq)]
+#[derive(Clone, Debug, PartialEq, Eq, Hash)]
 struct MBA { asn: u32, ski: [u8; 20], info: Vec<u8>, comment: Cm }
-#[derive(Clone, Debug, PartialEq, Eq)]
+#[derive(Clone, Debug, PartialEq, Eq, Hash)]
 struct MAA { customer: u32, providers: Vec<u32>, comment: Cm }
 
 impl MPA {
@@ -197,16 +201,17 @@ impl MAA {
     fn text(&self) -> String { format!("{{customerAsn:{},providerAsns:{:?}{}}}", self.customer, self.providers, cm_text(self.comment)) }
 }
 
-#[derive(Clone, Debug, Default)]
+#[derive(Clone, Debug, Default, PartialEq, Eq, Hash)]
 struct MFile { pf: Vec<MPF>, bf: Vec<MBF>, af: Option<Vec<MAF>>, pa: Vec<MPA>, ba: Vec<MBA>, aa: Option<Vec<MAA>> }
 
 impl MFile {
-    fn lib(&self) -> SlurmFile {
-        SlurmFile::new(
-            ValidationOutputFilters { prefix: self.pf.iter().map(|f| f.lib()).collect(), bgpsec: self.bf.iter().map(|f| f.lib()).collect(), aspa: self.af.as_ref().map(|l| l.iter().map(|f| f.lib()).collect()) },
-            LocallyAddedAssertions { prefix: self.pa.iter().map(|a| a.lib()).collect(), bgpsec: self.ba.iter().map(|a| a.lib()).collect(), aspa: self.aa.as_ref().map(|l| l.iter().map(|a| a.lib()).collect()) },
-        )
+    fn lib_filters(&self) -> ValidationOutputFilters {
+        ValidationOutputFilters { prefix: self.pf.iter().map(|f| f.lib()).collect(), bgpsec: self.bf.iter().map(|f| f.lib()).collect(), aspa: self.af.as_ref().map(|l| l.iter().map(|f| f.lib()).collect()) }
     }
+    fn lib_assertions(&self) -> LocallyAddedAssertions {
+        LocallyAddedAssertions { prefix: self.pa.iter().map(|a| a.lib()).collect(), bgpsec: self.ba.iter().map(|a| a.lib()).collect(), aspa: self.aa.as_ref().map(|l| l.iter().map(|a| a.lib()).collect()) }
+    }
+    fn lib(&self) -> SlurmFile { SlurmFile::new(self.lib_filters(), self.lib_assertions()) }
     fn payloads(&self) -> Vec<MPay> {
         self.pa.iter().map(|a| a.pay()).chain(self.ba.iter().map(|a| a.pay())).chain(self.aa.iter().flatten().map(|a| a.pay())).collect()
     }
@@ -732,6 +737,467 @@ fn check_file_named(lf: &mut Lf, oc: &mut Oc, m: &MFile, name: &dyn Fn() -> Stri
         }
     }
     6
+}
+
+//------------ object-level history: operation sequences on one file ---------
+
+const AS_A: u32 = 64496;
+const AS_B: u32 = 64497;
+const AS_C: u32 = 64500;
+/// Empty files whose text states the version number.
+const SHELL: [&str; 2] = [
+    r#"{"slurmVersion":1,"validationOutputFilters":{"prefixFilters":[],"bgpsecFilters":[]},"locallyAddedAssertions":{"prefixAssertions":[],"bgpsecAssertions":[]}}"#,
+    r#"{"slurmVersion":2,"validationOutputFilters":{"prefixFilters":[],"bgpsecFilters":[]},"locallyAddedAssertions":{"prefixAssertions":[],"bgpsecAssertions":[]}}"#,
+];
+
+/// The reference model of one file: plain Vecs and the version number.
+#[derive(Clone, Debug, PartialEq, Eq, Hash)]
+struct MState { f: MFile, ver: u8 }
+/// The file the operations work on and a second file (the clone / the original / the partner of swaps).
+#[derive(Clone, Debug, PartialEq, Eq, Hash)]
+struct MWorld { cur: MState, other: MState }
+struct World { cur: SlurmFile, other: SlurmFile }
+
+fn hash_of<T: std::hash::Hash>(t: &T) -> u64 { use std::hash::Hasher; let mut h = std::collections::hash_map::DefaultHasher::new(); t.hash(&mut h); h.finish() }
+fn shell(ver: u8) -> SlurmFile { SlurmFile::from_str(SHELL[(ver.clamp(1, 2) - 1) as usize]).expect("an empty file of version 1 / 2 parses") }
+/// A file that has only ever been in the given state: an empty file of that
+/// version whose two public parts are assigned from struct literals before anything is asked of it.
+fn twin(m: &MState) -> SlurmFile { let mut t = shell(m.ver); t.filters = m.f.lib_filters(); t.assertions = m.f.lib_assertions(); t }
+/// The version number a file writes (observed for the constructors, whose choice the property does not fix).
+fn written_version(f: &SlurmFile) -> Option<u8> { let t = f.to_string(); let i = t.find("\"slurmVersion\":")? + 15; t[i..].chars().next()?.to_digit(10).map(|d| d as u8) }
+
+/// How a start file comes into being.
+#[derive(Clone, Copy, Debug)]
+enum Form { New, Text(u8), DefaultAssign }
+
+/// Operations on a Vec, applied alike to the library's public field and to the model's Vec.
+#[derive(Clone, Debug)]
+enum VOp<T> { Push(T), Insert0(T), Replace0(T), Assign(Vec<T>), Pop, Remove0, SwapRemove0, Clear, Truncate1, Reverse, Drain, Take }
+impl<T: Clone> VOp<T> {
+    fn map<U>(&self, f: impl Fn(&T) -> U) -> VOp<U> {
+        match self {
+            VOp::Push(x) => VOp::Push(f(x)), VOp::Insert0(x) => VOp::Insert0(f(x)), VOp::Replace0(x) => VOp::Replace0(f(x)), VOp::Assign(v) => VOp::Assign(v.iter().map(f).collect()),
+            VOp::Pop => VOp::Pop, VOp::Remove0 => VOp::Remove0, VOp::SwapRemove0 => VOp::SwapRemove0, VOp::Clear => VOp::Clear, VOp::Truncate1 => VOp::Truncate1, VOp::Reverse => VOp::Reverse, VOp::Drain => VOp::Drain, VOp::Take => VOp::Take,
+        }
+    }
+    fn apply(&self, v: &mut Vec<T>) {
+        match self {
+            VOp::Push(x) => v.push(x.clone()), VOp::Insert0(x) => v.insert(0, x.clone()), VOp::Replace0(x) => if let Some(s) = v.first_mut() { *s = x.clone() },
+            VOp::Assign(n) => *v = n.clone(), VOp::Pop => { v.pop(); } VOp::Remove0 => if !v.is_empty() { v.remove(0); }, VOp::SwapRemove0 => if !v.is_empty() { v.swap_remove(0); },
+            VOp::Clear => v.clear(), VOp::Truncate1 => v.truncate(1), VOp::Reverse => v.reverse(), VOp::Drain => { v.drain(..); } VOp::Take => { let _ = std::mem::take(v); }
+        }
+    }
+    fn grows(&self) -> bool { matches!(self, VOp::Push(_) | VOp::Insert0(_) | VOp::Assign(_)) }
+    fn text(&self, field: &str, f: impl Fn(&T) -> String) -> String {
+        match self {
+            VOp::Push(x) => format!("{field}.push({})", f(x)), VOp::Insert0(x) => format!("{field}.insert(0, {})", f(x)), VOp::Replace0(x) => format!("{field}[0] = {}", f(x)),
+            VOp::Assign(v) => format!("{field} = vec![{}]", v.iter().map(f).collect::<Vec<_>>().join(", ")), VOp::Pop => format!("{field}.pop()"), VOp::Remove0 => format!("{field}.remove(0)"), VOp::SwapRemove0 => format!("{field}.swap_remove(0)"),
+            VOp::Clear => format!("{field}.clear()"), VOp::Truncate1 => format!("{field}.truncate(1)"), VOp::Reverse => format!("{field}.reverse()"), VOp::Drain => format!("{field}.drain(..)"), VOp::Take => format!("mem::take(&mut {field})"),
+        }
+    }
+}
+/// Operations on an optional section.
+#[derive(Clone, Debug)]
+enum OOp<T> { SetNone, SomeEmpty, TakeOpt, V(VOp<T>) }
+impl<T: Clone> OOp<T> {
+    fn map<U>(&self, f: impl Fn(&T) -> U) -> OOp<U> { match self { OOp::SetNone => OOp::SetNone, OOp::SomeEmpty => OOp::SomeEmpty, OOp::TakeOpt => OOp::TakeOpt, OOp::V(o) => OOp::V(o.map(f)) } }
+    fn apply(&self, o: &mut Option<Vec<T>>) {
+        match self {
+            OOp::SetNone => *o = None, OOp::SomeEmpty => *o = Some(Vec::new()), OOp::TakeOpt => { let _ = o.take(); }
+            OOp::V(op) => if op.grows() { op.apply(o.get_or_insert_with(Vec::new)) } else if let Some(v) = o { op.apply(v) },
+        }
+    }
+    fn text(&self, field: &str, f: impl Fn(&T) -> String) -> String {
+        match self { OOp::SetNone => format!("{field} = None"), OOp::SomeEmpty => format!("{field} = Some(vec![])"), OOp::TakeOpt => format!("{field}.take()"),
+            OOp::V(op) => op.text(&format!("{field}{}", if op.grows() { ".get_or_insert_with(Vec::new)" } else { ".as_mut()?" }), f) }
+    }
+}
+
+#[derive(Clone, Copy, Debug)]
+enum Sel { First, Last }
+fn pick<T>(v: &mut [T], s: Sel) -> Option<&mut T> { match s { Sel::First => v.first_mut(), Sel::Last => v.last_mut() } }
+
+/// One field of one entry changed in place.
+#[derive(Clone, Debug)]
+enum Edit {
+    PfAsn(Option<u32>), PfPrefix(Option<MPfx>), PfComment(Cm), BfSki(Option<[u8; 20]>), BfAsn(Option<u32>), AfCustomer(Option<u32>),
+    PaAsn(u32), PaPrefix(MPfx, Option<u8>), PaComment(Cm), BaAsn(u32), BaSki([u8; 20]), BaInfo(Vec<u8>), AaCustomer(u32), AaProviders(Vec<u32>),
+}
+impl Edit {
+    fn lib(&self, s: Sel, f: &mut SlurmFile) {
+        let asn = |a: &Option<u32>| a.map(Asn::from_u32);
+        match self {
+            Edit::PfAsn(a) => if let Some(x) = pick(&mut f.filters.prefix, s) { x.asn = asn(a) },
+            Edit::PfPrefix(p) => if let Some(x) = pick(&mut f.filters.prefix, s) { x.prefix = p.map(|p| p.lib()) },
+            Edit::PfComment(c) => if let Some(x) = pick(&mut f.filters.prefix, s) { x.comment = c.map(String::from) },
+            Edit::BfSki(k) => if let Some(x) = pick(&mut f.filters.bgpsec, s) { x.ski = k.map(KeyIdentifier::from) },
+            Edit::BfAsn(a) => if let Some(x) = pick(&mut f.filters.bgpsec, s) { x.asn = asn(a) },
+            Edit::AfCustomer(a) => if let Some(x) = f.filters.aspa.as_mut().and_then(|v| pick(v, s)) { x.customer_asid = asn(a) },
+            Edit::PaAsn(a) => if let Some(x) = pick(&mut f.assertions.prefix, s) { x.asn = Asn::from_u32(*a) },
+            Edit::PaPrefix(p, ml) => if let Some(x) = pick(&mut f.assertions.prefix, s) { x.prefix = MaxLenPrefix::new(p.lib(), *ml).expect("max-len") },
+            Edit::PaComment(c) => if let Some(x) = pick(&mut f.assertions.prefix, s) { x.comment = c.map(String::from) },
+            Edit::BaAsn(a) => if let Some(x) = pick(&mut f.assertions.bgpsec, s) { x.asn = Asn::from_u32(*a) },
+            Edit::BaSki(k) => if let Some(x) = pick(&mut f.assertions.bgpsec, s) { x.ski = KeyIdentifier::from(*k) },
+            Edit::BaInfo(i) => if let Some(x) = pick(&mut f.assertions.bgpsec, s) { x.router_public_key = Base64KeyInfo::try_from(i.clone()).expect("key info") },
+            Edit::AaCustomer(a) => if let Some(x) = f.assertions.aspa.as_mut().and_then(|v| pick(v, s)) { x.customer_asn = Asn::from_u32(*a) },
+            Edit::AaProviders(p) => if let Some(x) = f.assertions.aspa.as_mut().and_then(|v| pick(v, s)) { x.provider_asns = ProviderAsns::try_from_iter(p.iter().map(|a| Asn::from_u32(*a))).expect("providers") },
+        }
+    }
+    fn model(&self, s: Sel, f: &mut MFile) {
+        match self {
+            Edit::PfAsn(a) => if let Some(x) = pick(&mut f.pf, s) { x.asn = *a },
+            Edit::PfPrefix(p) => if let Some(x) = pick(&mut f.pf, s) { x.prefix = *p },
+            Edit::PfComment(c) => if let Some(x) = pick(&mut f.pf, s) { x.comment = *c },
+            Edit::BfSki(k) => if let Some(x) = pick(&mut f.bf, s) { x.ski = *k },
+            Edit::BfAsn(a) => if let Some(x) = pick(&mut f.bf, s) { x.asn = *a },
+            Edit::AfCustomer(a) => if let Some(x) = f.af.as_mut().and_then(|v| pick(v, s)) { x.customer = *a },
+            Edit::PaAsn(a) => if let Some(x) = pick(&mut f.pa, s) { x.asn = *a },
+            Edit::PaPrefix(p, ml) => if let Some(x) = pick(&mut f.pa, s) { x.p = *p; x.maxlen = *ml },
+            Edit::PaComment(c) => if let Some(x) = pick(&mut f.pa, s) { x.comment = *c },
+            Edit::BaAsn(a) => if let Some(x) = pick(&mut f.ba, s) { x.asn = *a },
+            Edit::BaSki(k) => if let Some(x) = pick(&mut f.ba, s) { x.ski = *k },
+            Edit::BaInfo(i) => if let Some(x) = pick(&mut f.ba, s) { x.info = i.clone() },
+            Edit::AaCustomer(a) => if let Some(x) = f.aa.as_mut().and_then(|v| pick(v, s)) { x.customer = *a },
+            Edit::AaProviders(p) => if let Some(x) = f.aa.as_mut().and_then(|v| pick(v, s)) { x.providers = p.clone() },
+        }
+    }
+    fn text(&self, s: Sel) -> String {
+        let at = |field: &str| format!("{field}.{}", match s { Sel::First => "first_mut()?", Sel::Last => "last_mut()?" });
+        let oa = |a: &Option<u32>| a.map_or("None".to_string(), |a| format!("Some(AS{a})"));
+        match self {
+            Edit::PfAsn(a) => format!("{}.asn = {}", at("filters.prefix"), oa(a)), Edit::PfPrefix(p) => format!("{}.prefix = {}", at("filters.prefix"), p.map_or("None".into(), |p| format!("Some({})", p.text()))),
+            Edit::PfComment(c) => format!("{}.comment = {c:?}", at("filters.prefix")), Edit::BfSki(k) => format!("{}.ski = {}", at("filters.bgpsec"), k.map_or("None".into(), |k| format!("Some({}..)", hex(&k[..2])))),
+            Edit::BfAsn(a) => format!("{}.asn = {}", at("filters.bgpsec"), oa(a)), Edit::AfCustomer(a) => format!("{}.customer_asid = {}", at("filters.aspa.as_mut()?"), oa(a)),
+            Edit::PaAsn(a) => format!("{}.asn = AS{a}", at("assertions.prefix")), Edit::PaPrefix(p, ml) => format!("{}.prefix = {}-{ml:?}", at("assertions.prefix"), p.text()), Edit::PaComment(c) => format!("{}.comment = {c:?}", at("assertions.prefix")),
+            Edit::BaAsn(a) => format!("{}.asn = AS{a}", at("assertions.bgpsec")), Edit::BaSki(k) => format!("{}.ski = {}..", at("assertions.bgpsec"), hex(&k[..2])), Edit::BaInfo(i) => format!("{}.router_public_key = {} octets", at("assertions.bgpsec"), i.len()),
+            Edit::AaCustomer(a) => format!("{}.customer_asn = AS{a}", at("assertions.aspa.as_mut()?")), Edit::AaProviders(p) => format!("{}.provider_asns = {p:?}", at("assertions.aspa.as_mut()?")),
+        }
+    }
+}
+
+#[derive(Clone, Copy, Debug, PartialEq, Eq)]
+enum Route { File, Filters, First }
+
+#[derive(Clone, Debug)]
+enum Op {
+    // calls that leave the content alone (and may build whatever the object keeps for later)
+    Query(Route, usize), IterPayload, ToString, EqOther, HashFile,
+    // the public fields
+    Pf(VOp<MPF>), Bf(VOp<MBF>), Af(OOp<MAF>), Pa(VOp<MPA>), Ba(VOp<MBA>), Aa(OOp<MAA>), Edit(Sel, Edit),
+    // two files, copies, parts moved about, the version number
+    CloneKeep, CloneSwitch, CloneOther, Switch, Json(u8), SwapFilters, SwapAssertions, SwapPart(u8), TakeFilters, TakeAssertions, CopyFiltersFromOther, RecloneFilters, Rehouse(u8), RehouseNew, RehouseDefault,
+}
+
+/// Version numbers the constructors choose (observed on fresh values; the property does not fix them).
+struct Vers { new: [u8; 2], default: u8 }
+
+impl Op {
+    /// Runs the operation on the library's objects; a query returns its answer.
+    fn lib(&self, w: &mut World, items: &[(MPay, Payload)]) -> Option<bool> {
+        use std::mem::{replace, swap, take};
+        match self {
+            Op::Query(Route::File, i) => return Some(w.cur.drop_payload(&items[*i].1)),
+            Op::Query(Route::Filters, i) => return Some(w.cur.filters.drop_payload(&items[*i].1)),
+            Op::Query(Route::First, i) => return match &items[*i].1 {
+                p @ Payload::Origin(_) => w.cur.filters.prefix.first().map(|f| f.drop_payload(p)),
+                p @ Payload::RouterKey(_) => w.cur.filters.bgpsec.first().map(|f| f.drop_payload(p)),
+                p @ Payload::Aspa(_) => w.cur.filters.aspa.as_ref().and_then(|v| v.first()).map(|f| f.drop_payload(p)),
+            },
+            Op::IterPayload => { let _ = w.cur.assertions.iter_payload().count(); }
+            Op::ToString => { let _ = w.cur.to_string(); }
+            Op::EqOther => { let _ = w.cur == w.other; }
+            Op::HashFile => { let _ = hash_of(&w.cur); }
+            Op::Pf(o) => o.map(|x| x.lib()).apply(&mut w.cur.filters.prefix),
+            Op::Bf(o) => o.map(|x| x.lib()).apply(&mut w.cur.filters.bgpsec),
+            Op::Af(o) => o.map(|x| x.lib()).apply(&mut w.cur.filters.aspa),
+            Op::Pa(o) => o.map(|x| x.lib()).apply(&mut w.cur.assertions.prefix),
+            Op::Ba(o) => o.map(|x| x.lib()).apply(&mut w.cur.assertions.bgpsec),
+            Op::Aa(o) => o.map(|x| x.lib()).apply(&mut w.cur.assertions.aspa),
+            Op::Edit(s, e) => e.lib(*s, &mut w.cur),
+            Op::CloneKeep => w.other = w.cur.clone(),
+            Op::CloneSwitch => { let c = w.cur.clone(); w.other = replace(&mut w.cur, c) }
+            Op::CloneOther => w.cur = w.other.clone(),
+            Op::Switch => swap(&mut w.cur, &mut w.other),
+            Op::Json(0) => w.cur = SlurmFile::from_str(&w.cur.to_string()).expect("from_str of the file's own to_string"),
+            Op::Json(1) => { let mut b = Vec::new(); w.cur.to_writer_pretty(&mut b).expect("to_writer_pretty into a Vec"); w.cur = SlurmFile::from_reader(&b[..]).expect("from_reader of the file's own to_writer_pretty") }
+            Op::Json(_) => w.cur = serde_json::from_value(serde_json::to_value(&w.cur).expect("to_value")).expect("from_value of the file's own to_value"),
+            Op::SwapFilters => swap(&mut w.cur.filters, &mut w.other.filters),
+            Op::SwapAssertions => swap(&mut w.cur.assertions, &mut w.other.assertions),
+            Op::SwapPart(0) => swap(&mut w.cur.filters.prefix, &mut w.other.filters.prefix),
+            Op::SwapPart(1) => swap(&mut w.cur.filters.bgpsec, &mut w.other.filters.bgpsec),
+            Op::SwapPart(2) => swap(&mut w.cur.filters.aspa, &mut w.other.filters.aspa),
+            Op::SwapPart(3) => swap(&mut w.cur.assertions.prefix, &mut w.other.assertions.prefix),
+            Op::SwapPart(4) => swap(&mut w.cur.assertions.bgpsec, &mut w.other.assertions.bgpsec),
+            Op::SwapPart(_) => swap(&mut w.cur.assertions.aspa, &mut w.other.assertions.aspa),
+            Op::TakeFilters => { let _ = take(&mut w.cur.filters); }
+            Op::TakeAssertions => { let _ = take(&mut w.cur.assertions); }
+            Op::CopyFiltersFromOther => w.cur.filters = w.other.filters.clone(),
+            Op::RecloneFilters => { let c = w.cur.filters.clone(); w.cur.filters = c }
+            Op::Rehouse(v) => { let mut s = shell(*v); swap(&mut s.filters, &mut w.cur.filters); swap(&mut s.assertions, &mut w.cur.assertions); w.cur = s }
+            Op::RehouseNew => w.cur = SlurmFile::new(take(&mut w.cur.filters), take(&mut w.cur.assertions)),
+            Op::RehouseDefault => { let mut s = SlurmFile::default(); s.filters = take(&mut w.cur.filters); s.assertions = take(&mut w.cur.assertions); w.cur = s }
+        }
+        None
+    }
+    /// The same operation on the model.
+    fn model(&self, m: &mut MWorld, vers: &Vers) {
+        use std::mem::swap;
+        match self {
+            Op::Query(..) | Op::IterPayload | Op::ToString | Op::EqOther | Op::HashFile | Op::Json(_) | Op::RecloneFilters => {}
+            Op::Pf(o) => o.apply(&mut m.cur.f.pf), Op::Bf(o) => o.apply(&mut m.cur.f.bf), Op::Af(o) => o.apply(&mut m.cur.f.af),
+            Op::Pa(o) => o.apply(&mut m.cur.f.pa), Op::Ba(o) => o.apply(&mut m.cur.f.ba), Op::Aa(o) => o.apply(&mut m.cur.f.aa),
+            Op::Edit(s, e) => e.model(*s, &mut m.cur.f),
+            Op::CloneKeep | Op::CloneSwitch => m.other = m.cur.clone(),
+            Op::CloneOther => m.cur = m.other.clone(),
+            Op::Switch => swap(&mut m.cur, &mut m.other),
+            Op::SwapFilters => { swap(&mut m.cur.f.pf, &mut m.other.f.pf); swap(&mut m.cur.f.bf, &mut m.other.f.bf); swap(&mut m.cur.f.af, &mut m.other.f.af) }
+            Op::SwapAssertions => { swap(&mut m.cur.f.pa, &mut m.other.f.pa); swap(&mut m.cur.f.ba, &mut m.other.f.ba); swap(&mut m.cur.f.aa, &mut m.other.f.aa) }
+            Op::SwapPart(0) => swap(&mut m.cur.f.pf, &mut m.other.f.pf), Op::SwapPart(1) => swap(&mut m.cur.f.bf, &mut m.other.f.bf), Op::SwapPart(2) => swap(&mut m.cur.f.af, &mut m.other.f.af),
+            Op::SwapPart(3) => swap(&mut m.cur.f.pa, &mut m.other.f.pa), Op::SwapPart(4) => swap(&mut m.cur.f.ba, &mut m.other.f.ba), Op::SwapPart(_) => swap(&mut m.cur.f.aa, &mut m.other.f.aa),
+            Op::TakeFilters => { m.cur.f.pf = Vec::new(); m.cur.f.bf = Vec::new(); m.cur.f.af = None }
+            Op::TakeAssertions => { m.cur.f.pa = Vec::new(); m.cur.f.ba = Vec::new(); m.cur.f.aa = None }
+            Op::CopyFiltersFromOther => { m.cur.f.pf = m.other.f.pf.clone(); m.cur.f.bf = m.other.f.bf.clone(); m.cur.f.af = m.other.f.af.clone() }
+            Op::Rehouse(v) => m.cur.ver = *v,
+            Op::RehouseNew => m.cur.ver = vers.new[(m.cur.f.af.is_some() || m.cur.f.aa.is_some()) as usize],
+            Op::RehouseDefault => m.cur.ver = vers.default,
+        }
+    }
+    /// What a query must answer in the given state (None: no such filter to ask).
+    fn expected(&self, m: &MState, items: &[(MPay, Payload)]) -> Option<bool> {
+        match self {
+            Op::Query(Route::First, i) => match &items[*i].0 {
+                MPay::Origin { p, asn, .. } => m.f.pf.first().map(|f| f.matches(*p, *asn)),
+                MPay::Key { ski, asn, .. } => m.f.bf.first().map(|f| f.matches(ski, *asn)),
+                MPay::Aspa { customer, .. } => m.f.af.as_ref().and_then(|v| v.first()).map(|f| f.matches(*customer)),
+            },
+            Op::Query(_, i) => Some(model_drop(&m.f.pf, &m.f.bf, m.f.af.as_deref(), &items[*i].0)),
+            _ => None,
+        }
+    }
+    /// Calls after which an object may hold something derived from its content.
+    fn observes(&self) -> bool { matches!(self, Op::Query(..) | Op::IterPayload | Op::ToString | Op::EqOther | Op::HashFile | Op::CloneKeep | Op::CloneSwitch | Op::CloneOther | Op::Json(_) | Op::CopyFiltersFromOther | Op::RecloneFilters) }
+    fn text(&self, items: &[(MPay, Payload)]) -> String {
+        match self {
+            Op::Query(Route::File, i) => format!("drop_payload({})", items[*i].0.text()), Op::Query(Route::Filters, i) => format!("filters.drop_payload({})", items[*i].0.text()),
+            Op::Query(Route::First, i) => format!("filters.{}.first()?.drop_payload({})", match items[*i].0 { MPay::Origin { .. } => "prefix", MPay::Key { .. } => "bgpsec", MPay::Aspa { .. } => "aspa.as_ref()?" }, items[*i].0.text()),
+            Op::IterPayload => "assertions.iter_payload().count()".into(), Op::ToString => "to_string()".into(), Op::EqOther => "== other".into(), Op::HashFile => "hash()".into(),
+            Op::Pf(o) => o.text("filters.prefix", |x| x.text()), Op::Bf(o) => o.text("filters.bgpsec", |x| x.text()), Op::Af(o) => o.text("filters.aspa", |x| x.text()),
+            Op::Pa(o) => o.text("assertions.prefix", |x| x.text()), Op::Ba(o) => o.text("assertions.bgpsec", |x| x.text()), Op::Aa(o) => o.text("assertions.aspa", |x| x.text()),
+            Op::Edit(s, e) => e.text(*s),
+            Op::CloneKeep => "other = clone() (go on with the original)".into(), Op::CloneSwitch => "clone() (go on with the clone; the original becomes other)".into(), Op::CloneOther => "file = other.clone()".into(), Op::Switch => "mem::swap(file, other)".into(),
+            Op::Json(0) => "file = from_str(to_string())".into(), Op::Json(1) => "file = from_reader(to_writer_pretty())".into(), Op::Json(_) => "file = from_value(to_value())".into(),
+            Op::SwapFilters => "mem::swap(filters, other.filters)".into(), Op::SwapAssertions => "mem::swap(assertions, other.assertions)".into(),
+            Op::SwapPart(k) => { let n = ["filters.prefix", "filters.bgpsec", "filters.aspa", "assertions.prefix", "assertions.bgpsec", "assertions.aspa"][(*k as usize).min(5)]; format!("mem::swap({n}, other.{n})") }
+            Op::TakeFilters => "mem::take(&mut filters)".into(), Op::TakeAssertions => "mem::take(&mut assertions)".into(), Op::CopyFiltersFromOther => "filters = other.filters.clone()".into(), Op::RecloneFilters => "filters = filters.clone()".into(),
+            Op::Rehouse(v) => format!("filters and assertions moved into an empty file parsed with slurmVersion {v}"), Op::RehouseNew => "file = SlurmFile::new(take(filters), take(assertions))".into(), Op::RehouseDefault => "filters and assertions moved into SlurmFile::default()".into(),
+        }
+    }
+}
+
+/// Everything the object-history space is built from.
+struct Hist { items: Vec<(MPay, Payload)>, starts: Vec<(&'static str, MFile, Form)>, start_texts: Vec<String>, other: MFile, other_text: String, vers: Vers, menu: Vec<(Op, bool)> }
+
+impl Hist {
+    fn new() -> Hist {
+        let p24 = MPfx::v4([192, 0, 2, 0], 24); let p16 = MPfx::v4([192, 0, 0, 0], 16); let p6 = MPfx::v6(0x2001_0db8_0000_0000, 0, 32);
+        let items: Vec<MPay> = vec![
+            MPay::Origin { p: MPfx::v4([192, 0, 2, 128], 25), maxlen: None, asn: AS_A }, MPay::Origin { p: p24, maxlen: Some(26), asn: AS_B }, MPay::Origin { p: p6, maxlen: Some(48), asn: AS_A }, MPay::Origin { p: MPfx::v4([198, 51, 100, 0], 24), maxlen: None, asn: AS_C },
+            MPay::Key { ski: K1, asn: AS_A, info: vec![0x30, 0x59] }, MPay::Key { ski: K2, asn: AS_B, info: vec![] }, MPay::Key { ski: K0, asn: AS_C, info: vec![1] },
+            MPay::Aspa { customer: AS_A, providers: vec![AS_B] }, MPay::Aspa { customer: AS_B, providers: vec![AS_A, AS_C] },
+        ];
+        let pf = |prefix: Option<MPfx>, asn: Option<u32>| MPF { prefix, asn, comment: None };
+        let (f_a, f_b, f_p, f_pa, f_e) = (pf(None, Some(AS_A)), pf(None, Some(AS_B)), pf(Some(p24), None), pf(Some(p24), Some(AS_A)), MPF { prefix: None, asn: None, comment: Some("no criteria") });
+        let bf = |ski: Option<[u8; 20]>, asn: Option<u32>| MBF { ski, asn, comment: None };
+        let (g_s, g_a, g_sa, g_e) = (bf(Some(K1), None), bf(None, Some(AS_A)), bf(Some(K1), Some(AS_A)), bf(None, None));
+        let af = |customer: Option<u32>| MAF { customer, comment: None };
+        let (h_a, h_b, h_e) = (af(Some(AS_A)), af(Some(AS_B)), af(None));
+        let a1 = MPA { p: p24, maxlen: Some(26), asn: AS_A, comment: None }; let a2 = MPA { p: p6, maxlen: None, asn: AS_B, comment: Some("v6") };
+        let b1 = MBA { asn: AS_A, ski: K1, info: vec![0x30, 0x59], comment: None }; let b2 = MBA { asn: AS_B, ski: K2, info: vec![], comment: None };
+        let c1 = MAA { customer: AS_A, providers: vec![AS_B, AS_C], comment: None }; let c2 = MAA { customer: AS_B, providers: vec![], comment: None };
+        let starts = vec![
+            ("empty, version 1", MFile::default(), Form::Text(1)),
+            ("empty ASPA sections", MFile { af: Some(vec![]), aa: Some(vec![]), ..Default::default() }, Form::New),
+            ("one entry per section", MFile { pf: vec![f_a.clone()], bf: vec![g_s.clone()], af: Some(vec![h_a.clone()]), pa: vec![a1.clone()], ba: vec![b1.clone()], aa: Some(vec![c1.clone()]) }, Form::New),
+            ("one AS-only prefix filter", MFile { pf: vec![f_a.clone()], ..Default::default() }, Form::New),
+            ("one prefix-only prefix filter, version 2", MFile { pf: vec![f_p.clone()], ..Default::default() }, Form::Text(2)),
+            ("prefix+AS and AS-only filters", MFile { pf: vec![f_pa.clone(), f_b.clone()], bf: vec![g_sa.clone()], ..Default::default() }, Form::DefaultAssign),
+            ("two AS-only filters, version 1", MFile { pf: vec![f_a.clone(), f_b.clone()], bf: vec![g_a.clone(), g_s.clone()], pa: vec![a1.clone(), a2.clone()], ..Default::default() }, Form::Text(1)),
+            ("version 1 with ASPA entries", MFile { pf: vec![f_e.clone()], af: Some(vec![h_a.clone(), h_b.clone()]), aa: Some(vec![c1.clone()]), ..Default::default() }, Form::Text(1)),
+            ("filters without criteria", MFile { pf: vec![f_e.clone(), f_a.clone()], bf: vec![g_e.clone()], af: Some(vec![h_e.clone()]), ..Default::default() }, Form::New),
+        ];
+        let other = MFile { pf: vec![pf(Some(p16), Some(AS_B))], bf: vec![bf(None, Some(AS_B))], af: Some(vec![h_b.clone()]), pa: vec![a2.clone()], ba: vec![b2.clone()], aa: Some(vec![c2.clone()]) };
+        // the operation menu; `true` marks the core menu used for the longest sequences
+        let mut menu: Vec<(Op, bool)> = Vec::new();
+        for i in 0..items.len() { menu.push((Op::Query(Route::File, i), [0, 1, 2, 4, 7].contains(&i))) }
+        for i in [0usize, 4, 7] { menu.push((Op::Query(Route::Filters, i), true)); menu.push((Op::Query(Route::First, i), true)) }
+        menu.extend([(Op::IterPayload, true), (Op::ToString, true), (Op::EqOther, false), (Op::HashFile, false)]);
+        for (o, core) in [(VOp::Push(f_a.clone()), true), (VOp::Push(f_b.clone()), true), (VOp::Push(f_p.clone()), true), (VOp::Push(f_pa.clone()), false), (VOp::Push(f_e.clone()), false), (VOp::Insert0(f_p.clone()), false), (VOp::Replace0(f_b.clone()), true),
+            (VOp::Assign(vec![f_a.clone()]), false), (VOp::Assign(vec![f_b.clone(), f_p.clone()]), false), (VOp::Pop, true), (VOp::Remove0, true), (VOp::SwapRemove0, false), (VOp::Clear, true), (VOp::Truncate1, false), (VOp::Reverse, false), (VOp::Drain, false), (VOp::Take, false)] { menu.push((Op::Pf(o), core)) }
+        for (e, core) in [(Edit::PfAsn(Some(AS_B)), true), (Edit::PfAsn(None), true), (Edit::PfAsn(Some(AS_A)), false), (Edit::PfPrefix(Some(p24)), true), (Edit::PfPrefix(Some(p16)), false), (Edit::PfPrefix(None), true), (Edit::PfComment(Some("edited")), false)] { menu.push((Op::Edit(Sel::First, e), core)) }
+        for e in [Edit::PfAsn(Some(AS_B)), Edit::PfPrefix(None)] { menu.push((Op::Edit(Sel::Last, e), false)) }
+        for (o, core) in [(VOp::Push(g_s.clone()), true), (VOp::Push(g_a.clone()), true), (VOp::Push(g_sa.clone()), false), (VOp::Push(g_e.clone()), false), (VOp::Replace0(g_a.clone()), false), (VOp::Assign(vec![g_s.clone()]), false), (VOp::Pop, true), (VOp::Remove0, false), (VOp::Clear, true)] { menu.push((Op::Bf(o), core)) }
+        for (e, core) in [(Edit::BfSki(Some(K2)), true), (Edit::BfSki(None), false), (Edit::BfAsn(Some(AS_B)), true), (Edit::BfAsn(None), false)] { menu.push((Op::Edit(Sel::First, e), core)) }
+        for (o, core) in [(OOp::SetNone, true), (OOp::SomeEmpty, false), (OOp::TakeOpt, false), (OOp::V(VOp::Push(h_a.clone())), true), (OOp::V(VOp::Push(h_b.clone())), false), (OOp::V(VOp::Push(h_e.clone())), false), (OOp::V(VOp::Assign(vec![h_a.clone()])), false), (OOp::V(VOp::Pop), true), (OOp::V(VOp::Remove0), false), (OOp::V(VOp::Clear), false)] { menu.push((Op::Af(o), core)) }
+        for (e, core) in [(Edit::AfCustomer(Some(AS_B)), true), (Edit::AfCustomer(None), false)] { menu.push((Op::Edit(Sel::First, e), core)) }
+        for (o, core) in [(VOp::Push(a1.clone()), true), (VOp::Push(a2.clone()), false), (VOp::Pop, true), (VOp::Remove0, false), (VOp::Clear, false), (VOp::Assign(vec![a2.clone()]), false), (VOp::Replace0(a2.clone()), false)] { menu.push((Op::Pa(o), core)) }
+        for (e, core) in [(Edit::PaAsn(AS_C), true), (Edit::PaPrefix(MPfx::v4([198, 51, 100, 0], 24), Some(24)), false), (Edit::PaComment(Some("edited")), false)] { menu.push((Op::Edit(Sel::First, e), core)) }
+        for (o, core) in [(VOp::Push(b1.clone()), true), (VOp::Push(b2.clone()), false), (VOp::Pop, false), (VOp::Clear, false)] { menu.push((Op::Ba(o), core)) }
+        for (e, core) in [(Edit::BaAsn(AS_C), false), (Edit::BaSki(K0), true), (Edit::BaInfo(vec![1, 2, 3]), false)] { menu.push((Op::Edit(Sel::First, e), core)) }
+        for (o, core) in [(OOp::SetNone, true), (OOp::SomeEmpty, false), (OOp::V(VOp::Push(c1.clone())), true), (OOp::V(VOp::Push(c2.clone())), false), (OOp::V(VOp::Pop), false)] { menu.push((Op::Aa(o), core)) }
+        for (e, core) in [(Edit::AaCustomer(AS_C), false), (Edit::AaProviders(vec![1]), true)] { menu.push((Op::Edit(Sel::First, e), core)) }
+        menu.extend([(Op::CloneKeep, true), (Op::CloneSwitch, true), (Op::CloneOther, false), (Op::Switch, true), (Op::Json(0), true), (Op::Json(1), false), (Op::Json(2), false), (Op::SwapFilters, true), (Op::SwapAssertions, false)]);
+        for k in 0..6u8 { menu.push((Op::SwapPart(k), k == 0)) }
+        menu.extend([(Op::TakeFilters, true), (Op::TakeAssertions, false), (Op::CopyFiltersFromOther, false), (Op::RecloneFilters, false), (Op::Rehouse(1), true), (Op::Rehouse(2), true), (Op::RehouseNew, false), (Op::RehouseDefault, false)]);
+        // the version numbers new() and default() choose, read from fresh values
+        let seen = |f: &dyn Fn() -> SlurmFile, fallback: u8| guard(|| written_version(&f())).ok().flatten().filter(|v| (1..=2).contains(v)).unwrap_or(fallback);
+        let vers = Vers {
+            new: [seen(&|| SlurmFile::new(ValidationOutputFilters::new(Vec::new(), Vec::new()), LocallyAddedAssertions::new(Vec::new(), Vec::new())), 1),
+                  seen(&|| SlurmFile::new(ValidationOutputFilters { prefix: vec![], bgpsec: vec![], aspa: Some(vec![]) }, LocallyAddedAssertions::new(Vec::new(), Vec::new())), 2)],
+            default: seen(&|| SlurmFile::default(), 2),
+        };
+        let items = items.into_iter().map(|m| { let l = m.lib(); (m, l) }).collect();
+        let start_texts = starts.iter().map(|(_, m, f)| match f { Form::Text(v) => m.json(*v, false), _ => String::new() }).collect();
+        let other_text = other.json(2, false);
+        Hist { items, starts, start_texts, other, other_text, vers, menu }
+    }
+
+    /// The start file (built the way its form says) next to the second file, and their models.
+    fn fresh(&self, si: usize) -> (World, MWorld) {
+        let (_, m, form) = &self.starts[si];
+        let aspa = m.af.is_some() || m.aa.is_some();
+        let (cur, ver) = match form {
+            Form::New => (m.lib(), self.vers.new[aspa as usize]),
+            Form::Text(v) => (SlurmFile::from_str(&self.start_texts[si]).expect("hand-written text of the start file parses"), *v),
+            Form::DefaultAssign => { let mut f = SlurmFile::default(); f.filters = m.lib_filters(); f.assertions = m.lib_assertions(); (f, self.vers.default) }
+        };
+        let other = SlurmFile::from_str(&self.other_text).expect("hand-written text of the second file parses");
+        (World { cur, other }, MWorld { cur: MState { f: m.clone(), ver }, other: MState { f: self.other.clone(), ver: 2 } })
+    }
+
+    fn witness(&self, si: usize, ops: &[usize]) -> String {
+        format!("start={} ({:?}) ops=[{}]", self.starts[si].0, self.starts[si].2, ops.iter().map(|o| self.menu[*o].0.text(&self.items)).collect::<Vec<_>>().join("; "))
+    }
+
+    /// Every observer on one file against the reference model and a freshly built twin.
+    fn sweep(&self, lf: &mut Lf, c: &mut HCnt, wit: &dyn Fn() -> String, which: &str, file: &SlurmFile, m: &MState) {
+        let r = guard(|| {
+            let tw = twin(m);
+            let mut bad: Vec<(&'static str, String)> = Vec::new();
+            let (mut kept, mut dropped) = (0u64, 0u64);
+            let state = || filters_text(&m.f.pf, &m.f.bf, m.f.af.as_deref());
+            for (mp, lp) in &self.items {
+                let want = model_drop(&m.f.pf, &m.f.bf, m.f.af.as_deref(), mp);
+                let a = file.drop_payload(lp); let b = file.filters.drop_payload(lp);
+                let d = file.filters.prefix.iter().any(|f| f.drop_payload(lp)) || file.filters.bgpsec.iter().any(|f| f.drop_payload(lp)) || file.filters.aspa.iter().flatten().any(|f| f.drop_payload(lp));
+                let t = tw.drop_payload(lp);
+                if a != want || b != want || d != want || t != want {
+                    bad.push(("C15.object.history.drop", format!("{which} file, item {}: SlurmFile::drop_payload={a} filters.drop_payload={b} some single filter's drop_payload={d}; a freshly built file in the same state answers {t}; the filters it holds now ({}) {}", mp.text(), state(), if want { "match: dropped" } else { "do not match: kept" })));
+                }
+                if want { dropped += 1 } else { kept += 1 }
+            }
+            let pays: Vec<MPay> = file.assertions.iter_payload().map(|p| fields_of(&p)).collect();
+            let tpays: Vec<MPay> = tw.assertions.iter_payload().map(|p| fields_of(&p)).collect();
+            if pays != m.f.payloads() || tpays != pays { bad.push(("C15.object.history.iter_payload", format!("{which} file: iter_payload yields {:?}; a freshly built file in the same state yields {:?}; the assertions it holds now are {:?}", pays.iter().map(|p| p.text()).collect::<Vec<_>>(), tpays.iter().map(|p| p.text()).collect::<Vec<_>>(), m.f.payloads().iter().map(|p| p.text()).collect::<Vec<_>>()))) }
+            let eqs = [*file == tw, tw == *file, file.filters == tw.filters, file.assertions == tw.assertions, hash_of(file) == hash_of(&tw)];
+            if eqs.contains(&false) { bad.push(("C15.object.history.eq", format!("{which} file against a freshly built file in the same state (version {}, {} {}): file == twin {}, twin == file {}, filters == {}, assertions == {}, same hash {}", m.ver, state(), m.f.text().split(" prefixAssertions").nth(1).map_or(String::new(), |s| format!("prefixAssertions{s}")), eqs[0], eqs[1], eqs[2], eqs[3], eqs[4]))) }
+            let (s, ts) = (file.to_string(), tw.to_string());
+            let back = SlurmFile::from_str(&s).map(|g| g == tw).map_err(|e| e.to_string());
+            if s != ts || back != Ok(true) { bad.push(("C15.object.history.json", format!("{which} file: to_string gives {} (parsed back equal to the twin: {:?}); a freshly built file in the same state gives {}", clip(&s), back, clip(&ts)))) }
+            (bad, kept, dropped)
+        });
+        c.ev += 4 * self.items.len() as u64 + 9;
+        match r {
+            Err(p) => lf.fail("C15.object.history.no_panic", wit, || format!("{which} file, observer sweep: {p}")),
+            Ok((bad, kept, dropped)) => { c.kept += kept; c.dropped += dropped; for (o, d) in bad { lf.fail(o, wit, || d) } }
+        }
+    }
+
+    /// One operation sequence from one start file, then the observer sweep on both files.
+    fn run(&self, si: usize, ops: &[usize], lf: &mut Lf, c: &mut HCnt, states: &mut std::collections::HashSet<u64>, trans: &mut std::collections::HashSet<u64>) {
+        let wit = || self.witness(si, ops);
+        let (mut w, mut m) = match guard(|| self.fresh(si)) { Ok(x) => x, Err(p) => { c.ev += 1; lf.fail("C15.object.history.no_panic", wit, || format!("building the start file: {p}")); return } };
+        let start_hash = hash_of(&m);
+        states.insert(start_hash);
+        let (mut observed, mut nontrivial, mut before) = (false, false, start_hash);
+        for (k, &oi) in ops.iter().enumerate() {
+            let op = &self.menu[oi].0;
+            let want = op.expected(&m.cur, &self.items);
+            c.ev += 1;
+            match guard(|| op.lib(&mut w, &self.items)) {
+                Err(p) => { lf.fail("C15.object.history.no_panic", wit, || format!("operation #{} ({}): {p}", k + 1, op.text(&self.items))); return }
+                Ok(got) => if got != want {
+                    lf.fail("C15.object.history.drop", wit, || format!("operation #{} answered {got:?}; the filters held at that point ({}) say {want:?}", k + 1, filters_text(&m.cur.f.pf, &m.cur.f.bf, m.cur.f.af.as_deref())));
+                }
+            }
+            op.model(&mut m, &self.vers);
+            let after = hash_of(&m);
+            trans.insert(hash_of(&(before, oi)));
+            states.insert(after);
+            if observed && after != before { nontrivial = true }
+            if op.observes() { observed = true }
+            before = after;
+        }
+        self.sweep(lf, c, &wit, "current", &w.cur, &m.cur);
+        self.sweep(lf, c, &wit, "other", &w.other, &m.other);
+        c.seqs += 1; if nontrivial { c.nt += 1 }
+        if before == start_hash { c.same += 1 } else { c.changed += 1 }
+    }
+}
+
+#[derive(Default)]
+struct HCnt { ev: u64, nt: u64, seqs: u64, kept: u64, dropped: u64, same: u64, changed: u64 }
+
+fn object_history(ctx: &Ctx, thorough: bool) {
+    let sp = ctx.space("object.history",
+        "explicit-state exploration of operation sequences on ONE SlurmFile object next to a second file: operations = drop_payload for a menu of 9 items of all kinds through the file, through its filters part and through a single filter; iter_payload, to_string, ==, hash; every public field changed by push / insert / [0] = / pop / remove / swap_remove / clear / truncate / reverse / drain / mem::take / assignment of a whole Vec / one field of the first or last entry set in place (prefix, bgpsec and ASPA filters and assertions; the optional ASPA sections also set to None / Some(empty) / taken); clone (going on with the clone, going on with the original), the files swapped, to_string -> from_str, to_writer_pretty -> from_reader, to_value -> from_value (going on with the parsed copy), filters / assertions / each single list swapped with the second file's, taken, copied from it, re-cloned; both parts moved into an empty file parsed with slurmVersion 1 / 2, into SlurmFile::new and into default(). Start files: empty (version 1), empty with ASPA sections, one entry per section, AS-only / prefix-only / prefix+AS prefix filters, two AS-only filters, version 1 carrying ASPA entries, filters without criteria - built by SlurmFile::new, parsed from hand-written text, default() then assigned. Every sequence is run on freshly built files; every query inside a sequence and, after the last operation, every observer on BOTH files (drop_payload of every item through SlurmFile, ValidationOutputFilters and the single filters; iter_payload; ==, hash; to_string and its parse) must agree with the reference model (plain Vecs + the RFC 8416 predicate) and with a freshly built twin that has only ever been in the final state. quick: all sequences of <= 2 over the full menu and of 3 over the core menu; thorough: <= 3 over the full menu and (from five of the start files) 4 over the core menu. States = distinct (file, second file) model states incl. version numbers; non-trivial = sequences in which a query, clone or serialisation is followed by an operation that changes the model state");
+    space_body(ctx, &sp.clone(), || {
+        let h = Hist::new();
+        let full: Vec<usize> = (0..h.menu.len()).collect();
+        let core: Vec<usize> = (0..h.menu.len()).filter(|i| h.menu[*i].1).collect();
+        // jobs: (start, menu, length, range of sequence codes)
+        let (full_len, core_len) = if thorough { (3u32, 4u32) } else { (2, 3) };
+        let mut jobs: Vec<(usize, &Vec<usize>, u32, u64, u64)> = Vec::new();
+        const CHUNK: u64 = 2048;
+        // thorough: the longest sequences start from five of the nine files
+        let long_starts: Vec<usize> = if thorough { vec![0, 2, 3, 6, 7] } else { (0..h.starts.len()).collect() };
+        for si in 0..h.starts.len() {
+            for (menu, lens) in [(&full, (0..=full_len).collect::<Vec<u32>>()), (&core, vec![core_len])] {
+                for len in lens {
+                    if len == core_len && std::ptr::eq(menu, &core) && !long_starts.contains(&si) { continue }
+                    let total = (menu.len() as u64).pow(len);
+                    let mut lo = 0; while lo < total { jobs.push((si, menu, len, lo, (lo + CHUNK).min(total))); lo += CHUNK }
+                }
+            }
+        }
+        let all_states: Mutex<std::collections::HashSet<u64>> = Mutex::new(Default::default());
+        let all_trans: Mutex<std::collections::HashSet<u64>> = Mutex::new(Default::default());
+        jobs.par_iter().for_each(|&(si, menu, len, lo, hi)| {
+            unit(|| format!("object history from start {} length {len} codes {lo}..{hi}", h.starts[si].0), || {
+                let mut lf = Lf::new(); let mut c = HCnt::default();
+                let (mut states, mut trans) = (std::collections::HashSet::new(), std::collections::HashSet::new());
+                let n = menu.len() as u64;
+                let mut ops = vec![0usize; len as usize];
+                for code in lo..hi {
+                    let mut x = code;
+                    for slot in ops.iter_mut().rev() { *slot = menu[(x % n) as usize]; x /= n }
+                    h.run(si, &ops, &mut lf, &mut c, &mut states, &mut trans);
+                }
+                sp.evals(c.ev); sp.nontrivial(c.nt); sp.traces(c.seqs);
+                sp.outcomes_n("kept", c.kept); sp.outcomes_n("dropped", c.dropped); sp.outcomes_n("sequence-ends-in-start-state", c.same); sp.outcomes_n("sequence-ends-in-another-state", c.changed);
+                all_states.lock().unwrap().extend(states); all_trans.lock().unwrap().extend(trans);
+            });
+        });
+        sp.states(all_states.lock().unwrap().len() as u64); sp.transitions(all_trans.lock().unwrap().len() as u64);
+        sp.set("operations", serde_json::json!(h.menu.iter().map(|(o, _)| o.text(&h.items)).collect::<Vec<_>>()));
+        sp.set("core_operations", serde_json::json!(core.len()));
+        sp.set("start_files", serde_json::json!(h.starts.iter().map(|(n, m, f)| format!("{n} ({f:?}): {}", m.text())).collect::<Vec<_>>()));
+        sp.set("second_file", serde_json::json!(h.other.text()));
+        sp.set("constructor_versions_observed", serde_json::json!({"new_without_aspa": h.vers.new[0], "new_with_aspa": h.vers.new[1], "default": h.vers.default}));
+        sp.set("bound", serde_json::json!(format!("{} start files x all sequences of <= {full_len} over {} operations + {} start files x all sequences of {core_len} over {} core operations", h.starts.len(), full.len(), long_starts.len(), core.len())));
+        sp.sample_str(|| h.witness(3, &[0, core.iter().copied().find(|i| matches!(h.menu[*i].0, Op::Pf(VOp::Pop))).unwrap_or(0)]));
+        sp.sample_str(|| h.witness(2, &[core[0], core.iter().copied().find(|i| matches!(h.menu[*i].0, Op::CloneSwitch)).unwrap_or(0), core.iter().copied().find(|i| matches!(h.menu[*i].0, Op::Edit(Sel::First, Edit::PfAsn(None)))).unwrap_or(0)]));
+    });
+    sp.done(true, if thorough { "9 start files x all sequences of <= 3 over the full menu + 5 start files x all sequences of 4 over the core menu, observer sweep on both files after each" } else { "9 start files x (all sequences of <= 2 over the full menu + all sequences of 3 over the core menu), observer sweep on both files after each" });
 }
 
 fn main() {
@@ -1523,6 +1989,9 @@ fn main() {
         }
     });
     sp.done(true, "5 lengths x 6 holders");
+
+    // ------------------------------------------------------------------ (4h)
+    object_history(&ctx, thorough);
 
     // ------------------------------------------------------------------ (5)
     let sp = ctx.space("json.text_inputs",
